@@ -2,6 +2,7 @@
 pub mod json;
 pub mod report;
 pub mod pipe;
+pub mod inflight;
 
 pub use json::{fbits, parse_fbits, J};
 pub use report::{fnv, par_range, replay_main, Cfg, Report, Tier, Viol};
